@@ -17,8 +17,9 @@ from common import *
 
 FUEL_TREE = 1200          # refinement depth bound given to the model (doubles: < 1100 halvings)
 F17 = "F17:tree-merge-flagged-particle-lingers"
-F17R = "F17:restart-with-flagged-particle-crashes"
+F17R = "F17:restart-with-flagged-particle"
 F18 = "C15-N1:particle-on-root-box-face-dropped-from-tree"
+N2 = "C15-N2:near-coincident-particles-unbounded-refinement"
 
 _rebound = None
 _lib = None
@@ -169,6 +170,7 @@ def gen_config(rng, kind="sim", allow_face=True):
                 steps=rng.randint(8, 60), parts=parts, seed=rng.next() & 0xFFFFFFFF,
                 upd_every=rng.choice([1, 1, 1, 2, 3]), posmode=posmode, face=face,
                 restart_at=(rng.randint(1, 12) if rng.chance(0.35) else 0), restart_kind=rng.choice(["copy", "file"]),
+                track_energy=(1 if rng.chance(0.4) else 0),    # open boundary without a tree: removal with keep_sorted
                 theta2=d2h(rng.choice([0.0, 0.25, 1.0])))
 
 
@@ -187,6 +189,9 @@ def make_sim(cfg, tree=True):
     sim.opening_angle2 = h2d(cfg["theta2"])
     sim.softening = 0.01 * rs
     sim.rand_seed = cfg["seed"]
+    tree_cfg = tree and (cfg["gravity"] == "tree" or cfg["collision"] in ("tree", "linetree"))
+    if cfg.get("track_energy") and cfg["boundary"] == "open" and not tree_cfg:
+        sim.track_energy_offset = 1      # never with a tree: sorted removal is refused there (C14)
     _clib.reb_simulation_set_collision_resolve  # (resolve set through the property above)
     sim.save_messages = 1 if hasattr(sim, "save_messages") else 0
     return sim
@@ -506,6 +511,7 @@ def run_sim(cfg, out, model_budget):
                 with open(_marker[0], "w") as f:
                     f.write("restart-with-flagged-particle")
                 out.inc("restarts_with_flagged_particle")
+                out.notes["flagged_restart"] = True
             sim = restart(sim, cfg)
             if _marker[0] and os.path.exists(_marker[0]):
                 os.remove(_marker[0])
@@ -720,7 +726,8 @@ def run_boundary(cfg, rows, out, with_tree):
                 out.viol.append(("open-moved", "open boundary changed the coordinates of a surviving particle", rep))
         out.inc("open_removed", n - len(ins))
         if not with_tree:
-            line = " ".join(["open"] + bxs + [d2h(v) for r in rows for v in r[:3]])
+            line = " ".join(["opensorted" if sim.track_energy_offset else "open"] + bxs + [d2h(v) for r in rows for v in r[:3]])
+            out.inc("open_sorted_calls" if sim.track_energy_offset else "open_unsorted_calls")
             exp = "ok " + " ".join(str(p["h"] - 1) for p in after)
             out.lines.append((line.strip(), exp.strip(), dict(where="reb_boundary_check open (order of survivors)", N=n, exact=True)))
     if with_tree and bnd in ("periodic", "shear"):
@@ -758,12 +765,19 @@ def worker(job, path):
     except Exception as e:   # python-level failure inside the worker = infrastructure
         import traceback
         out.notes["exception"] = traceback.format_exc()[-1500:]
+    if out.notes.get("flagged_restart"):
+        # F17 state copied / reloaded: the flagged particle is put back into the tree with a root-box index computed
+        # from NaN (crash, or a write outside tree_root and a particle left in no leaf)
+        sym = ("tree-", "step-error", "update-error", "duplicate-particle", "walk-theta0", "flagged-particle", "count-changed", "outside-after-step")
+        out.viol = [((F17R if k.startswith(sym) else k), w, r) for k, w, r in out.viol]
     if job["cfg"].get("face") and out.notes.get("f18_seen"):
         # once a particle sits in a cell that does not contain it the next update can damage tree and heap
         # (known finding C15-N1): everything but F17 observed in such a run is attributed to it
         # (tree / particle-array symptoms only; the boundary oracles keep their own keys)
         sym = ("tree-", "step-error", "update-error", "duplicate-particle", "walk-theta0", "flagged-particle")
-        out.viol = [((F18 if (k.startswith(sym) or (k == "count-changed" and job["kind"] == "sim")) else k), w, r) for k, w, r in out.viol]
+        arr = ("count-changed",) if job["kind"] == "sim" else \
+            (("count-changed", "open-survivors", "open-moved") if job.get("with_tree") else ())   # read after the damaged update
+        out.viol = [((F18 if (k.startswith(sym) or k in arr) else k), w, r) for k, w, r in out.viol]
     with open(path, "w") as f:
         json.dump(dict(viol=out.viol, lines=out.lines, counts=out.counts, evals=out.evals, notes=out.notes), f)
 
@@ -888,6 +902,8 @@ def run(c):
         "appends it to the particle array (outside the tree) — recorded, not counted as a violation",
         "the in-place update walk (re-insertion while the walk is in progress, swap-with-last renumbering) is proved only in its functional form "
         "(sweep, then re-insert); the real walk is covered by the invariant search and by the canonical-shape comparison",
+        "the termination theorem is exact-arithmetic: on doubles the cell centres stall once w/4 is below their rounding unit, so particles about "
+        "one ulp apart can recurse without bound (known finding C15-N2; the Float model runs out of fuel on the same input)",
         "MPI and QUADRUPOLE builds are not modelled"]
 
     jobs = []
@@ -933,7 +949,19 @@ def run(c):
                 what = "the real code %s on a generated %s case" % ("crashed (signal %s)" % res.get("crash") if res.get("crash") is not None else "did not return within the time limit", job["kind"])
                 cf = job["cfg"]
                 f18 = cf.get("face") and (job["kind"] == "boundary" or any_f18(cf))
-                if res.get("marker") == "restart-with-flagged-particle":
+                if os.environ.get("C15_DEBUG"):
+                    json.dump(job, open(os.path.join(os.environ.get("VERIF_TMP", "/tmp"), "c15_crash_%d.json" % len(c.known_hit)), "w"))
+                    c.log("DEBUG crash/hang", res, job["kind"])
+                pair = None
+                if job["kind"] in ("fresh", "sim"):
+                    pair = never_separating_pair(cf, [[h2d(t) for t in r[:3]] for r in cf["parts"]])
+                if pair is not None:
+                    c.violation(N2, what + ": particles %d and %d differ by about one ulp and are never separated by a cell centre (unbounded recursion in reb_tree_add_particle_to_cell)" % pair, job)
+                    if job["kind"] == "fresh":
+                        # the model agrees: refinement does not stop within any fuel
+                        lines.append(model_line(cf, [dict(x=h2d(r[0]), y=h2d(r[1]), z=h2d(r[2]), m=h2d(r[6])) for r in cf["parts"]], False))
+                        expect.append("err fuel %d" % pair[1]); meta.append(dict(where="unbounded refinement (model: fuel exhausted)", exact=True))
+                elif res.get("marker") == "restart-with-flagged-particle":
                     c.violation(F17R, what + " while copying / reloading a simulation that holds a particle flagged for removal", job)
                 else:
                     c.violation(F18 if f18 else ("crash" if res.get("crash") is not None else "hang"), what, job)
@@ -945,6 +973,8 @@ def run(c):
             for key, n in res["evals"]:
                 c.count(tuple(key), nontrivial=n >= 2, n=ne)
             for key, what, rep in res["viol"]:
+                if os.environ.get("C15_DEBUG"):
+                    c.log("DEBUG", job["kind"], key, what[:200], res["notes"])
                 c.violation(key, what, rep)
             for l, e, m in res["lines"]:
                 lines.append(l); expect.append(e); meta.append(m)
@@ -1036,6 +1066,50 @@ def close_lines(g, e):
         if x == x and not abs(x - y) <= 256 * 2.3e-16 * scale:
             return False
     return True
+
+
+def shared_depth(cfg, p, q, cap=1200):
+    """number of levels two positions descend together (float operations of tree.c); cap = never separated"""
+    rs, nx, ny, nz = box_of(cfg)
+    n = (nx, ny, nz)
+    b = [rs * k for k in n]
+
+    def ridx(v, a):
+        i = math.floor((v + b[a] / 2.) / rs)
+        return max(0, min(n[a] - 1, i)) if ROOT_RULE[0] == "clamp" else (i + n[a]) % n[a]
+    ip = [ridx(p[a], a) for a in range(3)]
+    if ip != [ridx(q[a], a) for a in range(3)]:
+        return 0
+    c = [-b[a] / 2. + rs * (0.5 + ip[a]) for a in range(3)]
+    w = rs
+    for d in range(cap):
+        op = [p[a] < c[a] for a in range(3)]
+        if op != [q[a] < c[a] for a in range(3)]:
+            return d
+        w = w / 2.
+        c = [c[a] + w / 2. * (-1. if op[a] else 1.) for a in range(3)]
+    return cap
+
+
+def never_separating_pair(cfg, pos):
+    """(i, j), i < j, smallest j: two distinct positions so close (about an ulp) that no cell centre ever falls between
+    them — reb_tree_add_particle_to_cell recurses until the stack overflows (known finding C15-N2)"""
+    rs, nx, ny, nz = box_of(cfg)
+    tol = rs * max(nx, ny, nz) * 1e-12
+    order = sorted(range(len(pos)), key=lambda i: pos[i][0])
+    best = None
+    for ai in range(len(order)):
+        i = order[ai]
+        for bi in range(ai + 1, len(order)):
+            j = order[bi]
+            if pos[j][0] - pos[i][0] > tol:
+                break
+            if abs(pos[i][1] - pos[j][1]) <= tol and abs(pos[i][2] - pos[j][2]) <= tol and pos[i] != pos[j]:
+                if shared_depth(cfg, pos[i], pos[j]) >= 1200:
+                    lo, hi = min(i, j), max(i, j)
+                    if best is None or hi < best[1]:
+                        best = (lo, hi)
+    return best
 
 
 def any_f18(cfg):
